@@ -440,7 +440,7 @@ namespace bloch::compiler {
                 reportError("Static classes cannot declare destructors");
             if (isStatic || isVirtual || isOverride)
                 reportError("Destructors cannot be static, virtual, or override");
-            return parseDestructorDeclaration(visibility);
+            return parseDestructorDeclaration(visibility, className);
         }
 
         if (match(TokenType::Function)) {
@@ -572,7 +572,8 @@ namespace bloch::compiler {
         return ctor;
     }
 
-    std::unique_ptr<DestructorDeclaration> Parser::parseDestructorDeclaration(Visibility vis) {
+    std::unique_ptr<DestructorDeclaration> Parser::parseDestructorDeclaration(
+        Visibility vis, const std::string& className) {
         std::unique_ptr<DestructorDeclaration> dtor = std::make_unique<DestructorDeclaration>();
         dtor->visibility = vis;
         const Token& dtorTok = previous();
@@ -587,7 +588,13 @@ namespace bloch::compiler {
 
         (void)expect(TokenType::Arrow, "Expected '->' before destructor return type");
         std::unique_ptr<Type> retType = parseType();
-        if (!dynamic_cast<VoidType*>(retType.get())) {
+        // 'destructor() -> void' and, as the class-system guide writes it, 'destructor() -> ClassName'
+        bool namesOwnClass = false;
+        if (auto named = dynamic_cast<NamedType*>(retType.get())) {
+            namesOwnClass = !className.empty() && named->typeArguments.empty() &&
+                            named->nameParts.size() == 1 && named->nameParts.back() == className;
+        }
+        if (!dynamic_cast<VoidType*>(retType.get()) && !namesOwnClass) {
             reportError("Destructor must return 'void'");
         }
 
